@@ -128,7 +128,7 @@ static void drain_all(const char *key) {
 
 /* ---------------------------------------------------------------- process snapshot (C16) */
 static char *shared_name;
-static void on_rename(int sig) { (void) sig; if (shared_name && shared_name[0]) prctl(PR_SET_NAME, shared_name); }
+static void on_rename(int sig) { (void) sig; if (shared_name && shared_name[40]) prctl(PR_SET_NAME, shared_name); }
 static pid_t jam_helper;
 static int count_threads(void) { int n = 0; DIR *d = opendir("/proc/self/task"); struct dirent *e; while (d && (e = readdir(d))) if (isdigit((unsigned char) e->d_name[0])) n++; if (d) closedir(d); return n; }
 static void snapshot(const char *key) {
@@ -391,13 +391,13 @@ static size_t run_line(size_t pc, int in_child, int *stop) {
     } else if (!strcmp(c, "chdir")) { unsigned char *a = unhex(tok[1], &n); if (chdir((char *) a)) opf("{\"ev\":\"error\",\"what\":\"chdir: %s\"}\n", strerror(errno)); free(a);
     } else if (!strcmp(c, "umask")) { umask((mode_t) strtol(tok[1], NULL, 8));
     } else if (!strcmp(c, "renameparent")) {                       /* the parent process (another xdrv level) changes its name while we keep running */
-        unsigned char *a = unhex(tok[1], &n); snprintf(shared_name, 32, "%s", (char *) a); kill(getppid(), SIGUSR2);
+        unsigned char *a = !strcmp(tok[1], "-") ? (unsigned char *) strdup("") : unhex(tok[1], &n); snprintf(shared_name, 32, "%s", (char *) a); shared_name[40] = 1; kill(getppid(), SIGUSR2);
         char cp[64], cur_[64]; snprintf(cp, sizeof cp, "/proc/%d/comm", (int) getppid());
         for (int i = 0; i < 200; i++) { int f = open(cp, O_RDONLY); ssize_t r = f >= 0 ? read(f, cur_, sizeof cur_ - 1) : 0; if (f >= 0) close(f); if (r < 0) r = 0; cur_[r] = 0; if (r && cur_[r - 1] == '\n') cur_[r - 1] = 0;
             if (!strncmp(cur_, (char *) a, 15)) break;
             struct timespec nap = { 0, 1000000 }; nanosleep(&nap, NULL); }
         free(a);
-    } else if (!strcmp(c, "name")) { unsigned char *a = unhex(tok[1], &n); prctl(PR_SET_NAME, a); free(a);
+    } else if (!strcmp(c, "name")) { if (ntok > 1 && !strcmp(tok[1], "-")) prctl(PR_SET_NAME, ""); else { unsigned char *a = unhex(tok[1], &n); prctl(PR_SET_NAME, a); free(a); }
     } else if (!strcmp(c, "snapnow")) { opf("{\"ev\":\"snapnow\",\"label\":\"%s\",", ntok > 1 ? tok[1] : ""); snapshot("snap"); opf("}\n"); oflush();
     } else if (!strcmp(c, "sigblock")) { sigset_t s; sigemptyset(&s); sigaddset(&s, atoi(tok[1])); sigprocmask(SIG_BLOCK, &s, NULL);
     } else if (!strcmp(c, "sighandlers")) { for (int s = 1; s < 32; s++) if (s != SIGKILL && s != SIGSTOP && s != SIGCHLD && s != SIGSEGV && s != SIGBUS && s != SIGILL && s != SIGFPE && s != SIGABRT) signal(s, onsig);
